@@ -80,5 +80,7 @@ CmpView == <<[gs EXCEPT !.last = NULL, !.result = (gs.result # NULL),
 PropView == <<[gs EXCEPT !.last = NULL, !.P = [i \in Seats(gs) |-> [gs.P[i] EXCEPT !.did = "", !.vpip = FALSE]]], h>>
 
 StateOK == FailedState(gs, h, Props) = {}
+\* what PayProof.tla assumes of a state is true of every reachable one: the record structure and the chip identity
+StructOK == Struct(gs) /\ ChipIdentity(gs)
 StepOK == [][out'.op # "new" => FailedStep(gs, gs', out', h, h', Props) = {}]_vars
 =============================================================================
